@@ -613,6 +613,10 @@ class Interp(Ops, Builtins, DynOps):
                 return self.call_function(f, [o, i], {}, node)
         if k == "dyn":
             return self.dyn_getitem(o, i, node)
+        if k == "sobj" and o.cname in self.class_models and self.class_models[o.cname].repo_class is not None:
+            f = self.class_models[o.cname].repo_class.find_method(self.index, "__getitem__")
+            if f is not None:
+                return self.call_function(f, [o, i], {}, node)
         raise EngineError(f"subscript of {o} (line {getattr(node, 'lineno', '?')})")
 
     def slice(self, o, lo, hi, st, node):
@@ -659,6 +663,11 @@ class Interp(Ops, Builtins, DynOps):
             return self.ext_setitem(o, i, v, node)
         if o.kind == "ref" and o.rkind == "obj" and o.cls is not None and not isinstance(o.cls, str):
             f = o.cls.find_method(self.index, "__setitem__")
+            if f is not None:
+                self.call_function(f, [o, i, v], {}, node)
+                return
+        if o.kind == "sobj" and o.cname in self.class_models and self.class_models[o.cname].repo_class is not None:
+            f = self.class_models[o.cname].repo_class.find_method(self.index, "__setitem__")
             if f is not None:
                 self.call_function(f, [o, i, v], {}, node)
                 return
@@ -1365,15 +1374,19 @@ class Interp(Ops, Builtins, DynOps):
 
     def assigned_names(self, body):
         names, attrs = set(), set()
+        rebound = set()
         for nd in ast.walk(ast.Module(body=body, type_ignores=[])):
             if isinstance(nd, ast.Name) and isinstance(nd.ctx, ast.Store):
                 names.add(nd.id)
+                rebound.add(nd.id)
             elif isinstance(nd, ast.Attribute) and isinstance(nd.ctx, ast.Store) and isinstance(nd.value, ast.Name):
                 attrs.add((nd.value.id, nd.attr))
             elif isinstance(nd, ast.AugAssign) and isinstance(nd.target, ast.Attribute) and isinstance(nd.target.value, ast.Name):
                 attrs.add((nd.target.value.id, nd.target.attr))
             elif isinstance(nd, ast.Subscript) and isinstance(nd.ctx, ast.Store) and isinstance(nd.value, ast.Name):
                 names.add(nd.value.id)      # x[i] = v changes the value x denotes (tables, lists)
+        # names that are only item-assigned keep denoting the same heap list / object (its CONTENT is havocked with the heap, not the reference)
+        self._last_item_only = names - rebound
         return sorted(names), sorted(attrs)
 
     def cut_loop(self, s, fr, sym):
@@ -1405,6 +1418,7 @@ class Interp(Ops, Builtins, DynOps):
             fr.vars[gname] = self.eval_spec(gtx, fr)
         check_inv(z3.IntVal(0), "entry")
         names, attrs = self.assigned_names(s.body)
+        item_only = set(self._last_item_only)
         tnames, _ = self.assigned_names([ast.Assign(targets=[s.target], value=ast.Constant(0), lineno=s.lineno)])
         for tn in tnames:
             if tn not in names:
@@ -1421,6 +1435,7 @@ class Interp(Ops, Builtins, DynOps):
         c = self.ctx
         if c.base_len is not None:
             c.pc = c.pc[:c.base_len] + [f for f in c.pc[c.base_len:] if not has_quant(f) or f.get_id() in c.keep_ids]
+        self._item_assigned_only = item_only
         self.havoc_for_loop(fr, names, attrs, spec, s)
         wmark = len(self.ctx.written)
         if which == 0:
@@ -1480,6 +1495,8 @@ class Interp(Ops, Builtins, DynOps):
         for nm in names:
             v = fr.vars.get(nm)
             if v is None:
+                continue
+            if nm in getattr(self, "_item_assigned_only", ()) and v.kind in ("slist", "sobj"):
                 continue
             fr.vars[nm] = self.fresh_like(v, nm, node)
         for (on, an) in attrs:
